@@ -528,14 +528,18 @@ func judge(c *tcase, out outcome, ev func(string, int)) (vs []violation) {
 					ev("dial_address_differs_from_url_authority", 1)
 				}
 			} else {
-				// which of the HostClients owns this connection is told by the scheme its address was dialled for
-				for _, s := range c.HCs {
-					if s.Addr == cl.Dial && s.IsTLS == cl.TLS {
-						if (rq.WantScheme == "https") != s.IsTLS {
-							vs = append(vs, violation{"hostclient-sent-mismatching-scheme", fmt.Sprintf("HostClient{IsTLS:%v}: ", s.IsTLS) + where})
-						}
-						break
+				// which HostClient owns this connection is told by the address it dialled
+				// (only when exactly one HostClient of the case dials this address: the owner is then certain)
+				var owner *hcSpec
+				owners := 0
+				for k := range c.HCs {
+					if c.HCs[k].Addr == cl.Dial {
+						owner = &c.HCs[k]
+						owners++
 					}
+				}
+				if owners == 1 && (rq.WantScheme == "https") != owner.IsTLS {
+					vs = append(vs, violation{"hostclient-sent-mismatching-scheme", fmt.Sprintf("HostClient{IsTLS:%v}: ", owner.IsTLS) + where})
 				}
 			}
 		}
